@@ -23,6 +23,7 @@ from ..report import Report
 from ..sym import (FALSE, NONE, TRUE, Evaluator, Frame, Term, Unsupported, atoms_of, bool_value, const, lin, number, show, subst, subterms, sym,
                    t_and, t_cmp, t_not, t_or)
 from .common import is_call_of, loop_of, norm_stmt
+from .c16_domain import Misaligned, N, first_edge, involved, read_domain
 
 ORDER = {"LOW": 0, "MID": 1, "HIGH": 2}
 
@@ -166,11 +167,27 @@ def _norm_calls(t):
     return tuple(_norm_calls(x) if isinstance(x, tuple) else x for x in t)
 
 
+class _Out:
+    """an outcome of a function read path by path (same fields as the evaluator's outcomes, plus the path)"""
+
+    def __init__(self, p: Path):
+        self.cond, self.kind, self.value, self.path = p.cond, p.exit, p.value, p
+
+    def __str__(self):
+        return f"{self.kind} {show(self.value) if self.value is not None else ''} if {show(self.cond)}"
+
+
 def _skeleton(model: Model, f: FunctionInfo):
-    """(guards, final quantifier term, env) of a requires-parking / requires-idle function."""
+    """outcomes (guard condition, value) of a requires-parking / requires-idle function; read path by path when it contains loops"""
     ev = Evaluator(model, inline_methods=False)
-    outs = ev.eval_function(f)
-    return ev, outs
+    try:
+        outs = ev.eval_function(f)
+        return ev, outs
+    except Unsupported:
+        pe = PathEnumerator(Evaluator(model, inline_methods=False))
+        pe.split_ite = False
+        cls = f.cls if f.kind == "method" else None
+        return pe.ev, [_Out(p) for p in pe.function_paths(f, self_cls=cls)]
 
 
 def _rejections(L, outer):
@@ -240,53 +257,67 @@ def q4_q5(model: Model, rep: Report):
     rep.check(all(o.kind == "return" and o.value == FALSE for o in others), "C16.Q4", "get_requires_parking[default-false]", fp.loc, found=[str(o) for o in others], required="False outside the spectator case",
               what="parking is demanded from non-spectators or participants", detail="default")
     # final quantifier
-    def final_ok(v: Term, cmp_name: str, negate_moving: bool, own_fg_elem: Term, con_sym: Term) -> Tuple[bool, str]:
+    def final_ok(v: Term, cmp_name: str, negate_moving: bool, own_fg_elem: Term, con_sym: Term, eds_sym: Term, path) -> Tuple[bool, str]:
         if not (v[0] == "quant" and v[1] == "any" and v[2][0] == "comp"):
             return False, f"not an any(...): {show(v)}"
         comp = v[2]
         if len(comp[3]) != 1 or comp[3][0][1]:
             return False, "filtered or multi-generator quantifier"
         it = comp[3][0][0]
-        known_domain = it[0] == "call" and it[1] == "zip" and len(it[2]) == 3
-        elt = comp[2]
-        parts = list(elt[1]) if elt[0] == "and" else [elt]
+        try:
+            dom, conds, pred = read_domain(model, it, comp[2], path)
+        except Misaligned as e:
+            return False, str(e)
+        want_dom = ("call", ("attr", con_sym, "get_neighbors"), (), (("qubit", own_fg_elem),))
+        if _norm_calls(dom) != _norm_calls(want_dom) and _norm_calls(dom) != _norm_calls(("call", ("attr", con_sym, "get_neighbors"), (), (("order", lin({}, Fraction(1))), ("qubit", own_fg_elem)))):
+            return False, f"candidates are {show(dom)} instead of the direct neighbours of the element"
+        if list(conds) != [involved(eds_sym, N)]:
+            return False, "candidates are not exactly the neighbours that are part of one of the given gates: " + (" and ".join(show(c)[:80] for c in conds) or "no test")
+        parts = list(pred[1]) if pred[0] == "and" else [pred]
         if len(parts) != 2:
-            return False, f"quantified predicate is {show(elt)}"
+            return False, f"quantified predicate is {show(pred)[:160]}"
         c1 = [p for p in parts if (p[0] == "call" and isinstance(p[1], tuple) and p[1][0] == "attr" and p[1][2] == cmp_name)]
         mv = [p for p in parts if "on_moving_side" in show(p)]
         if len(c1) != 1 or len(mv) != 1:
-            return False, f"quantified predicate is {show(elt)}"
+            return False, f"quantified predicate is {show(pred)[:160]}"
         neg = mv[0][0] == "not"
         if neg != negate_moving:
             return False, "moving-side test has the wrong polarity"
-        # the comparison is neighbour_group.<cmp>(own group)
+
+        def group_of(q):
+            return ("call", ("attr", con_sym, "get_frequency_group_identifier"), (), (("element", q),))
         own = (list(c1[0][2]) + [x for _, x in c1[0][3]])
-        if len(own) != 1 or "get_frequency_group_identifier" not in show(own[0]) or not subterms(own[0], lambda y: y == own_fg_elem):
-            return False, f"compares against {show(own[0]) if own else None} instead of the element's own group"
-        if not subterms(c1[0][1][1], lambda y: y[0] == "item"):
-            return False, "the comparison is not made for the neighbour's group"
-        if not known_domain:
-            # the predicate is right; how the (neighbour, gate, group) triples are collected is written in a way this rule does not read
-            raise AnalysisError(f"requires-parking / requires-idle: the quantifier ranges over {show(it)[:160]}, not over the zipped neighbour / gate / group lists; nothing decided about the domain")
-        # zip arguments: three lists built from neighbours that are involved (no slices)
-        for z in it[2]:
-            src = z[3] if z[0] == "var" else z
-            if src[0] != "comp" or subterms(src, lambda y: y[0] == "slice"):
-                return False, f"zip argument {show(z)} is not a complete list"
+        if len(own) != 1 or _norm_calls(own[0]) != _norm_calls(group_of(own_fg_elem)):
+            return False, f"compares against {show(own[0])[:80] if own else None} instead of the element's own group"
+        if _norm_calls(c1[0][1][1]) != _norm_calls(group_of(N)):
+            return False, f"the comparison is made for {show(c1[0][1][1])[:80]}, not for the neighbour's group"
+        m = mv[0][1] if neg else mv[0]
+        if not (m[0] == "call" and m[1] == ("fn", "connectivity_surface_code.on_moving_side")):
+            return False, f"moving-side test is {show(m)[:100]}"
+        mk = dict(m[3])
+        if m[2] or mk.get("qubit_id") != N or mk.get("connectivity") != con_sym:
+            return False, "on_moving_side is not asked for the neighbour"
+        if mk.get("edge_id") != first_edge(eds_sym, N):
+            return False, f"on_moving_side is asked about {show(mk.get('edge_id'))[:120]}, not about the gate the neighbour is part of"
         return True, ""
-    ok, why = final_ok(fpv.value, "is_higher_than", False, el, con)
+    ok, why = final_ok(fpv.value, "is_higher_than", False, el, con, eds, getattr(fpv, "path", None))
     rep.check(ok, "C16.Q4", "get_requires_parking[quantifier]", fp.loc, found=why or "any(neighbour higher and on the moving side)", required="any(neighbour_group.is_higher_than(own_group) and on_moving_side(neighbour, its gate))",
               what="parking requirement is not 'neighbours a moving, higher-frequency member of an active gate': " + why, detail="quantifier")
     eli, edsi, coni = (sym(p) for p in fi.param_names[-3:])
-    ok, why = final_ok(fiv.value, "is_lower_than", True, eli, coni)
+    ok, why = final_ok(fiv.value, "is_lower_than", True, eli, coni, edsi, getattr(fiv, "path", None))
     rep.check(ok, "C16.Q5", "OperationConstraint.get_requires_idle[quantifier]", fi.loc, found=why or "any(neighbour lower and not on the moving side)", required="any(neighbour_group.is_lower_than(own_group) and not on_moving_side(neighbour, its gate))",
               what="idle requirement is not the mirror of the parking requirement: " + why, detail="quantifier")
-    # mirror: after renaming and swapping the two primitives the quantifier terms coincide
+    # mirror: both siblings read to the same candidates / tests, and their predicates coincide after swapping the two primitives
     ren = {eli: el, edsi: eds, coni: con}
-    mirrored = _mirror(subst(fiv.value, ren))
-    same = _strip_lines(mirrored) == _strip_lines(fpv.value)
-    rep.check(same, "C16.Q5", "get_requires_idle ~ get_requires_parking[mirror]", fi.loc, found="identical after mirroring" if same else "differs after mirroring", required="identical lists and zip structure",
-              what="the two sibling predicates no longer build their neighbour / gate lists the same way (one of them is wrong)", detail="mirror")
+    try:
+        rd_p = read_domain(model, fpv.value[2][3][0][0], fpv.value[2][2], getattr(fpv, "path", None))
+        rd_i = read_domain(model, fiv.value[2][3][0][0], fiv.value[2][2], getattr(fiv, "path", None))
+        same = _strip_lines(_norm_calls(subst(rd_i[0], ren))) == _strip_lines(_norm_calls(rd_p[0])) and [subst(c, ren) for c in rd_i[1]] == list(rd_p[1]) \
+            and _strip_lines(_norm_calls(_mirror(subst(rd_i[2], ren)))) == _strip_lines(_norm_calls(rd_p[2]))
+    except (Misaligned, IndexError, TypeError):
+        same = False
+    rep.check(same, "C16.Q5", "get_requires_idle ~ get_requires_parking[mirror]", fi.loc, found="identical after mirroring" if same else "differs after mirroring", required="the same candidates, tests and gate pairing",
+              what="the two sibling predicates no longer select their neighbour / gate pairs the same way (one of them is wrong)", detail="mirror")
     sp_i = [a for a in guards_i if subst(a, ren) == sp[0]] if sp else []
     rep.check(len(sp_i) == 1 and len(guards_i) == 1, "C16.Q5", "OperationConstraint.get_requires_idle[guards]", fi.loc, found=show(fiv.cond), required="the same spectator test as get_requires_parking",
               what="idle requirement uses a different spectator test", detail="guards")
